@@ -104,7 +104,7 @@ FNAMES = [("f", "sub/g"), ("tags", "sub/CVS"), ("a{b}.txt", "sub/{}")]   # 1: na
 
 
 def _files_case(entry, pres, f, g, mrel, strat, recursive, excl, check_schema, csub=False, sel=0, nm=0):
-    exclude = [None, "f", "g", "fg"][excl]     # "fg": a multi-character pattern given as ONE string; it matches no file of the universe
+    exclude = [None, "f", "g", "fg", r".*\.json$"][excl]     # "fg": a multi-character pattern given as ONE string; it matches no file of the universe; the last one also matches signac's own file names
     with SL.Scratch() as sc:
         src, dst = SL.build(sc.root, pres, f, g, mrel, 0, 0, csub, names=FNAMES[nm])
         bs, bd = SL.snap(src.path), SL.snap(dst.path)
@@ -133,16 +133,17 @@ def _files_case(entry, pres, f, g, mrel, strat, recursive, excl, check_schema, c
 
 def h_files(entry: int, pres: int, f: int, g: int, mrel: int, strat: int, recursive: bool, excl: int, check_schema: bool, csub: bool, sel: int, nm: int):
     assert 0 <= nm <= 2 and (nm == 0 or (excl == 0 and sel == 0 and not csub and not check_schema and (tier() != "quick" or (strat <= 1 and mrel == 0 and pres in (3, 15)))))
-    assert 0 <= entry <= 1 and 0 <= pres < 16 and 0 <= f <= 5 and 0 <= g <= 5 and 0 <= mrel <= 2 and 0 <= strat <= 5 and 0 <= excl <= 3 and part_ok(f * 6 + g)
+    assert 0 <= entry <= 1 and 0 <= pres < 16 and 0 <= f <= 5 and 0 <= g <= 5 and 0 <= mrel <= 2 and 0 <= strat <= 5 and 0 <= excl <= 4 and part_ok(f * 6 + g)
     assert pres & 1 and (entry == 0 or pres & 3 == 3)          # job0 exists in the source (and in both for Job.sync)
     assert (f in (4, 5) or g in (4, 5)) or mrel == 0           # the mtime relation only matters for differing files
     assert (entry == 0 or not check_schema)
-    assert tier() != "quick" or (pres in (1, 3, 7, 15) and g in (0, 1, 4) and excl in (0, 1, 3) and strat in (0, 1, 2, 3))
-    assert tier() == "quick" or (pres in (1, 3, 5, 7, 15) and (excl in (0, 3) or (strat in (0, 1) and not check_schema)) and (mrel == 0 or strat in (0, 3)))   # sized to ~10 min on 16 cores
+    assert excl != 4 or (strat == 1 and mrel == 0 and not check_schema and not csub and pres in (1, 7))
+    assert tier() != "quick" or (pres in (1, 3, 7, 15) and g in (0, 1, 4) and excl in (0, 1, 3, 4) and strat in (0, 1, 2, 3))
+    assert tier() == "quick" or (pres in (1, 3, 5, 7, 15) and (excl in (0, 3, 4) or (strat in (0, 1) and not check_schema)) and (mrel == 0 or strat in (0, 3)))   # sized to ~10 min on 16 cores
     assert (not csub) or (pres & 3 == 3 and (tier() != "quick" or (g == 1 and strat == 1)))   # common sub-directory: only meaningful when job0 is on both sides
     assert 0 <= sel <= 3 and (sel == 0 or (entry == 0 and (tier() != "quick" or (strat == 1 and excl == 0 and g <= 1 and f <= 1))))
     fresh_path()
-    entry, pres, f, g, mrel, strat, recursive, excl, check_schema, csub = ci(entry, 0, 1), ci(pres, 0, 15), ci(f, 0, 5), ci(g, 0, 5), ci(mrel, 0, 2), ci(strat, 0, 5), cb(recursive), ci(excl, 0, 3), cb(check_schema), cb(csub)
+    entry, pres, f, g, mrel, strat, recursive, excl, check_schema, csub = ci(entry, 0, 1), ci(pres, 0, 15), ci(f, 0, 5), ci(g, 0, 5), ci(mrel, 0, 2), ci(strat, 0, 5), cb(recursive), ci(excl, 0, 4), cb(check_schema), cb(csub)
     sel, nm = ci(sel, 0, 3), ci(nm, 0, 2)
     with nt():
         out, problems = _files_case(entry, pres, f, g, mrel, strat, recursive, excl, check_schema, csub, sel, nm)
